@@ -101,6 +101,7 @@ pub fn run(ctx: &Ctx) -> Outcome {
         run_and_report(ctx, &rx(ctx.tier, 4, vec![1, MSS], d), &mut out);
         run_and_report(ctx, &rx_grown_mss(ctx.tier, d), &mut out);
         run_and_report(ctx, &close(ctx.tier, d), &mut out);
+        run_and_report(ctx, &sack_keepalive(ctx.tier, ctx.tier.pick(6, 9)), &mut out);
         run_and_report(ctx, &rx_halfclosed(ctx.tier, d), &mut out);
         run_and_report(ctx, &mtu(ctx.tier, 700, None, None, 1, ctx.tier.pick(5, 7)), &mut out);
     }
